@@ -91,7 +91,8 @@ where
             return Ok(());
         }
 
-        let mut tmp_int_config1 = self.device.config.int_config.get_config1();
+        let int_config1 = self.device.config.int_config.get_config1();
+        let mut tmp_int_config1 = int_config1;
         let int_enabled = tmp_int_config1.actch_int();
 
         // If the interrupt is enabled and we're trying to change the Data Source to AccFilt1, the ODR must be 100Hz
@@ -105,6 +106,7 @@ where
         if int_enabled {
             tmp_int_config1 = tmp_int_config1.with_actch_int(false);
             self.device.interface.write_register(tmp_int_config1)?;
+            self.device.config.int_config.set_config1(tmp_int_config1);
         }
 
         // Write the changes
@@ -118,8 +120,9 @@ where
         }
 
         // Re-enable the interrupt, if it was disabled
-        if self.device.config.int_config.get_config1().bits() != tmp_int_config1.bits() {
-            self.device.interface.write_register(self.device.config.int_config.get_config1())?;
+        if int_config1.bits() != tmp_int_config1.bits() {
+            self.device.interface.write_register(int_config1)?;
+            self.device.config.int_config.set_config1(int_config1);
         }
         Ok(())
     }
